@@ -174,9 +174,9 @@ theorem step_strict {c : Cfg} {s s' : State} (hm : c.mode = Mode.poolStrict) (h 
 
 theorem reach_strict {c : Cfg} {s : State} (hm : c.mode = Mode.poolStrict) (h : Reach c s) : StrictInv c s := by
   refine Reachable.invariant (StrictInv c) ?_ ?_ s h
-  · intro s hs; subst hs
+  · intro s hs; obtain ⟨r0, rfl⟩ := hs
     refine ⟨fun t => Or.inl rfl, rfl, rfl, ?_⟩
-    simp only [State.init]
+    simp only [State.initAt]
     induction c.nthreads with
     | zero => rfl
     | succ n ih => simp [List.replicate_succ, ih]
@@ -505,13 +505,13 @@ theorem step_recInv {c : Cfg} {s s' : State} (h : Step c s s') (hie : IdleEmpty 
 theorem reach_recInv {c : Cfg} {s : State} (h : Reach c s) : RecInv c s := by
   have : IdleEmpty s ∧ RecInv c s := by
     refine Reachable.invariant (fun s => IdleEmpty s ∧ RecInv c s) ?_ ?_ s h
-    · intro s hs; subst hs
-      refine ⟨fun t _ => by simp [State.init, Th.toks], fun o => ?_⟩
-      have : pend c (State.init c) = [] := by
+    · intro s hs; obtain ⟨r0, rfl⟩ := hs
+      refine ⟨fun t _ => by simp [State.initAt, Th.toks], fun o => ?_⟩
+      have : pend c (State.initAt c r0) = [] := by
         unfold pend
         apply List.flatMap_eq_nil_iff.mpr
-        intro t _; simp [pendOf, State.init]
-      rw [this]; simp [State.init]
+        intro t _; simp [pendOf, State.initAt]
+      rw [this]; simp [State.initAt]
     · intro s s' hi hst; exact ⟨step_idleEmpty hst hi.1, step_recInv hst hi.1 hi.2⟩
   exact this.2
 
